@@ -36,6 +36,32 @@ def gen_expr(rng, depth, nleaf):
     return ['bin', rng.choice(['add', 'sub', 'mul']), gen_expr(rng, depth - 1, nleaf), gen_expr(rng, depth - 1, nleaf)]
 
 
+# the wider alphabet of the direct oracle (not in the Coq model): quotients, math functions, comparisons, Boolean
+# and three-valued operators (seeded change C17-H: tvl_and took a fully masked shrunk operand for an unmasked one)
+NUM_UN = ['neg', 'abs', 'sin', 'sq']
+NUM_BIN = ['add', 'sub', 'mul', 'div', 'maximum']
+CMP = ['lt', 'le', 'gt', 'eq', 'ne', 'tvl_lt', 'tvl_eq', 'tvl_ne']
+BOOL_BIN = ['and', 'or', 'xor', 'tvl_and', 'tvl_or']
+
+
+def gen_num(rng, depth, nleaf):
+    if depth == 0 or rng.random() < 0.25:
+        if rng.random() < 0.15:
+            return ['const', rng.choice([0, 1, -2, 3])]
+        return ['leaf', rng.randrange(nleaf)]
+    if rng.random() < 0.3:
+        return ['un', rng.choice(NUM_UN), gen_num(rng, depth - 1, nleaf)]
+    return ['bin', rng.choice(NUM_BIN), gen_num(rng, depth - 1, nleaf), gen_num(rng, depth - 1, nleaf)]
+
+
+def gen_bool(rng, depth, nleaf):
+    if depth <= 1 or rng.random() < 0.3:
+        return ['bin', rng.choice(CMP), ['leaf', rng.randrange(nleaf)], gen_num(rng, max(depth - 1, 0), nleaf)]
+    if rng.random() < 0.2:
+        return ['un', 'not', gen_bool(rng, depth - 1, nleaf)]
+    return ['bin', rng.choice(BOOL_BIN), gen_bool(rng, depth - 1, nleaf), gen_bool(rng, depth - 1, nleaf)]
+
+
 def all_exprs(depth, nleaf):
     if depth == 0:
         return [['leaf', i] for i in range(nleaf)] + [['const', 2]]
@@ -58,9 +84,28 @@ def eval_expr(e, env):
         return e[1]
     if k == 'un':
         x = eval_expr(e[2], env)
-        return -x if e[1] == 'neg' else abs(x)
+        if e[1] in ('neg', 'abs'):
+            return -x if e[1] == 'neg' else abs(x)
+        x = _q(x)
+        return {'sin': lambda: x.sin(), 'sq': lambda: x * x, 'not': lambda: x.logical_not()}[e[1]]()
     a, b = eval_expr(e[2], env), eval_expr(e[3], env)
-    return a + b if e[1] == 'add' else (a - b if e[1] == 'sub' else a * b)
+    if e[1] in ('add', 'sub', 'mul'):
+        return a + b if e[1] == 'add' else (a - b if e[1] == 'sub' else a * b)
+    a = _q(a)
+    import operator
+    plain = {'div': operator.truediv, 'lt': operator.lt, 'le': operator.le, 'gt': operator.gt, 'eq': operator.eq,
+             'ne': operator.ne, 'and': operator.and_, 'or': operator.or_, 'xor': operator.xor}
+    if e[1] in plain:
+        r = plain[e[1]](a, b)
+        return r if not isinstance(r, (bool, np.bool_)) else P().Boolean(bool(r))
+    if e[1] == 'maximum':
+        return P().Scalar.maximum(a, b)
+    return getattr(a, e[1])(b)                    # tvl_lt, tvl_eq, tvl_ne, tvl_and, tvl_or
+
+
+def _q(x):
+    Pm = P()
+    return x if isinstance(x, Pm.Qube) else Pm.Scalar(x)
 
 
 def coq_expr(e):
@@ -226,7 +271,7 @@ def gen_cases(rng, tier):
         for e in exprs1[:6]:
             env = [gen_operand(rng, (), s, False, False) for s in (3, None)]
             cases.append({'am': amb, 'full_shape': [3], 'env': env, 'expr': e, 'model': True})
-    nrand = 1200 if tier == 'quick' else 12000
+    nrand = 3000 if tier == 'quick' else 20000
     for _ in range(nrand):
         n = rng.randrange(1, 6)
         nleaf = rng.randrange(1, 4)
@@ -256,8 +301,18 @@ def gen_cases(rng, tier):
             if not any(tuple(d['shape']) == tuple(full) for d in env):
                 full = list(np.broadcast_shapes(*[tuple(d['shape']) for d in env], tuple(amshape)))
             am = gen_antimask(rng, amshape)
-        cases.append({'am': am, 'full_shape': full, 'env': env, 'expr': gen_expr(rng, rng.randrange(1, 4), nleaf),
-                      'model': model})
+            # an antimask that selects only elements at which the first operand is masked: that operand shrinks to a
+            # single masked value while the others keep their arrays
+            m0 = env[0]['mask']
+            if rng.random() < 0.3 and isinstance(m0, list) and any(m0) and tuple(env[0]['shape']) == tuple(amshape):
+                am = {'shape': list(amshape), 'bits': [bool(b) for b in m0]}
+        if model:
+            expr = gen_expr(rng, rng.randrange(1, 4), nleaf)
+        else:
+            r = rng.random()
+            expr = (gen_expr(rng, rng.randrange(1, 4), nleaf) if r < 0.3 else
+                    gen_num(rng, rng.randrange(1, 4), nleaf) if r < 0.6 else gen_bool(rng, rng.randrange(1, 4), nleaf))
+        cases.append({'am': am, 'full_shape': full, 'env': env, 'expr': expr, 'model': model})
     return cases
 
 
